@@ -84,6 +84,35 @@ func c12nGen(cw *caseWriter, tier string, r *rng) {
 			}
 		}
 	}
+	// a snapshot at or below the cached last log index whose entry was compacted away (the log starts above it): GetLog fails,
+	// the tail counts as stale and is dropped; also the neighbouring shapes (entry present with the same / another term, snapshot above the log)
+	for _, trailing := range []uint64{0, 1, 100} {
+		for _, first := range []uint64{9, 10, 11, 12} { // the log holds first..13, terms 3; the local snapshot sits at first-1
+			for _, s := range []uint64{9, 10, 11, 13, 14} { // index of the snapshot that arrives
+				for _, st := range []uint64{3, 4} {
+					g := &nsGen{self: 1, trailing: trailing, maxapp: 4, cfgtab: [][]srv{cfgSAB}}
+					g.term = 4
+					for i := first; i <= 13; i++ {
+						g.entries = append(g.entries, mk(i, 3, 0, 300+i))
+					}
+					g.snaps = []nsSnap{{idx: first - 1, term: 3, cfg: cfgSAB, cfgidx: 1, data: []uint64{5}, ok: true}}
+					data := []uint64{5, 300 + s}
+					g.events = [][]uint64{
+						evInstall(4, 3, 3, s, st, cfgSAB, 1, data, false, 0, nil),
+						evAppend(4, 3, 3, s, st, [][4]uint64{mk(s+1, 4, 0, 400+s+1)}, s+1, 0, nil),
+						evAppend(4, 3, 3, s+1, 4, nil, s+1, 0, nil),
+						evRestart(), evDecision(),
+					}
+					nsRun(cw, cw.tag("q"), g.encode(), func(tag string, in, obs []uint64) {
+						c12monitor(cw)(tag, in, obs)
+						c10monitor(cw)(tag, in, obs)
+						c04monitor(cw)(tag, in, obs)
+					})
+					n++
+				}
+			}
+		}
+	}
 	cw.stat("c12n_cases", n)
 }
 
